@@ -91,7 +91,13 @@ def gen_case(rng, tier, index):
     for k in range(len(hist["sessions"])):
         ops.append({"op": "session", "k": k})
         for _ in range(rng.choice([0, 1, 1, 2])):
-            kind = rng.choice(["reopen", "relocate", "relocate", "version"])
+            kind = rng.choice(["reopen", "relocate", "relocate", "version",
+                               "amend"])
+            if kind == "amend":
+                ops.append({"op": "amend", "what": rng.choice(
+                    ["dataset", "attribute"]), "value": gen_meta(rng),
+                    "reopen_first": rng.random() < 0.5})
+                continue
             if kind == "relocate":
                 ops.append({"op": "relocate", "how": rng.choice(["copy",
                                                                  "move"]),
@@ -109,6 +115,9 @@ def gen_case(rng, tier, index):
                 ops.append({"op": "reopen"})
     case = C.base_case(rng, hist)
     case["ops"] = ops
+    # the dataset is created through a relative path and the working
+    # directory changes afterwards (the handle is kept)
+    case["create_relative"] = rng.random() < 0.3
     return case
 
 
@@ -170,7 +179,17 @@ def run_case(case):
             hr = dsgen.HistoryRunner(
                 hist, root, pool_factory=lambda ses: simexec.SimPool)
             try:
-                hr.create(metadata=Metadata(**hist["metadata"]))
+                if case.get("create_relative"):
+                    os.chdir(os.path.dirname(root))
+                    hr.root = os.path.basename(root)  # "root", relative
+                    hr.create(metadata=Metadata(**hist["metadata"]))
+                    hr.root = root
+                    elsewhere = os.path.join(scratch, "some where else")
+                    os.makedirs(elsewhere, exist_ok=True)
+                    os.chdir(elsewhere)
+                    probes["created_relative_then_chdir"] += 1
+                else:
+                    hr.create(metadata=Metadata(**hist["metadata"]))
                 for op in case["ops"]:
                     probes["op_" + op["op"]] += 1
                     if op["op"] == "session":
@@ -193,6 +212,21 @@ def run_case(case):
                             break
                     elif op["op"] == "reopen":
                         hr.ds = hr.sio.Dataset(hr.root)
+                    elif op["op"] == "amend":
+                        # the description is amended and saved without any
+                        # new shard
+                        if op["reopen_first"]:
+                            hr.ds = hr.sio.Dataset(hr.root)
+                        if op["what"] == "dataset":
+                            hist["metadata"]["custom_metadata"] = op["value"]
+                            md = hr.ds.metadata.model_copy(
+                                update={"custom_metadata": op["value"]})
+                            hr.ds.metadata = md
+                        else:
+                            st["attrs"][0]["custom_metadata"] = op["value"]
+                            hr.ds.dataset_structure.saved_data_description[
+                                0].custom_metadata = op["value"]
+                        hr.ds.write_config(updated_infos=[])
                     elif op["op"] == "relocate":
                         nreloc += 1
                         relocate(hr, op, scratch, nreloc, probes)
@@ -375,7 +409,8 @@ def shrink(case):
 def reach(agg):
     need = []
     p, s = agg["probes"], agg["stats"]
-    for name in ("op_relocate", "op_version", "op_reopen", "relocate_copy",
+    for name in ("op_relocate", "op_version", "op_reopen", "op_amend",
+                 "created_relative_then_chdir", "relocate_copy",
                  "relocate_move", "access_absolute", "access_relative",
                  "access_dotdot", "access_symlink"):
         if not p.get(name):
